@@ -1178,6 +1178,21 @@ IS_BFOP = Contract(
     modifies=REPLAY_MODS,
     lemmas=['PATHS', 'ANC', 'lookup_sanitized', 'sanitized_eqdom'],
 )
+
+
+def bfop_dirs_guard(eng, st, cargs):
+    """C01 ("raises the same exception type as from scratch"): whether the parent directories of
+    a recorded output can still be made is asked of the replayed state as it was BEFORE this
+    output is registered in it -- once registered, its directories count as existing and the
+    question can no longer fail"""
+    obj = eng.cur_args['created_files'].t      # (here the overlay is a plain CreatedFiles object)
+    from contracts import created_files as CF_
+    same = And(eng.hread(st, CF_.F_, obj) == eng.hread(eng.entry_state, CF_.F_, obj),
+               eng.hread(st, CF_.D_, obj) == eng.hread(eng.entry_state, CF_.D_, obj))
+    return [('directories-checked-before-the-output-is-registered', same, ['C01', 'C05', 'C04'])]
+
+
+IS_BFOP.call_guards = {'file_builder.FileBuilder._dirs_to_make': bfop_dirs_guard}
 CONTRACTS.append(IS_BFOP)
 
 IS_SUBOP = Contract(
@@ -1550,7 +1565,7 @@ def only_listed_changes(c, kind_now, made):
 
 
 MAKE_DIRS = call_guard_set(Contract(
-    M + '_make_dirs', props=['C10', 'C14', 'C03', 'C02'],
+    M + '_make_dirs', props=['C10', 'C14', 'C03', 'C02', 'C04'],
     params={'self': FB, 'dir_': STR}, returns=LIST(STR), ret_fresh=False,
     requires=lambda c: [('not-in-backup-dir', ForAll([xs_], Implies(IS_TEMP(xs_), True)))],
     ensures=lambda c: [('no-callback', c.gnew('ncalls') == c.gold('ncalls'))] + eff_grows(c),
@@ -1559,7 +1574,7 @@ MAKE_DIRS = call_guard_set(Contract(
         ('no-directory-left-behind', ForAll([xs_], Implies(
             And(Not(IS_TEMP(xs_)), c.gnew('fs_kind')[xs_] == K_DIR,
                 c.gold('fs_kind')[xs_] != K_DIR),
-            c.gnew('rm_attempts')[xs_])), ['C10', 'C14']),
+            c.gnew('rm_attempts')[xs_])), ['C10', 'C14', 'C04', 'C02']),
     ] + eff_grows(c))],
     modifies=lambda c: EXEC_MODS + ['FileBackups._backups', 'FileBackups._next_backup_index',
                                     'g:eff', 'g:fs_kind', 'g:fs_epoch', 'g:rm_attempts', 'g:vstate'],
